@@ -160,7 +160,11 @@ def declare_c15(E):
                        "     + unpack32(message.packet.getvalue()[old(message.packet.tell()):old(message.packet.tell()) + 4])]),"
                        " result.packet.getvalue()[0:1] == b'\\x5c' and result.packet.getvalue()[5:9] == pack32(1)) if notnone(result) else True",
                },
-               returns="opt[obj:Message]", raises={"UnicodeDecodeError": "True"}, modifies=["message.packet.pos"])
+               returns="opt[obj:Message]",
+               # replies to requests the server never made (REQUEST_SUCCESS / FAILURE, CHANNEL_OPEN confirmation / failure)
+               # from an unauthenticated peer end the connection
+               raises={"SSHException": "self.server_mode and ptype > 79 and ptype != 80 and ptype != 90 and not %s" % AUTHED},
+               modifies=["message.packet.pos"])
     generic_handlers(E)
     E.contracts["paramiko.transport.ChannelMap.get"] = dict(
         params={"chanid": "int"}, returns="opt[obj:Channel]",
@@ -349,3 +353,20 @@ def declare_c09(E, expected_len=1):
                },
                raises={"MessageOrderError": "True", "SSHException": "ghost('got_message') and (%s)" % IN_EXPECTED if False else "True",
                        "EOFError": "True", "OSError": "True"})
+
+
+# ---------------------------------------------------------------------------------------------------------- C38
+def declare_c38(E):
+    """whatever the peer sends, one iteration of the dispatch loop ends normally or with SSHException / EOFError / OSError"""
+    from contracts import specs
+    declare_c15(E)
+    # a message handed to the packet layer must have a type byte (send_message reads data[0])
+    c = E.contracts[T + "_send_message"]
+    c["requires"] = {"message_has_a_type_byte": "len(data.packet.getvalue()) >= 1"}
+    c = E.contracts[T + "_ensure_authed"]
+    c["ensures"] = dict(c["ensures"], refusal_is_a_sendable_message="(len(result.packet.getvalue()) >= 1) if notnone(result) else True")
+    E.contract(RUN_ITER, params={"self": "obj:Transport"},
+               requires={"active": "self.active"},
+               ghosts={"ptype": "int", "seqno": "int", "got_message": "bool", "sent_count": "int", "send_failed": "bool", "handler_calls": "int"},
+               ensures={},
+               raises={"SSHException": "True", "EOFError": "True", "OSError": "True"})
